@@ -291,6 +291,7 @@ void InstModel::apply_setter(int which, int v) {
   }
 }
 void InstModel::apply_chunk(long c) {
+  if (c >= 2) ever_fit = true;
   chunk = c >= 2 ? c : 0;
   chunk_unknown = false;
 }
